@@ -121,73 +121,79 @@ func modeVar(u flow.FuncUnit) (*types.Var, ast.Node) {
 	return v, at
 }
 
-func commandHasFlag(c cliCommand, name string) bool {
-	found := false
-	ast.Inspect(c.Lit, func(n ast.Node) bool {
-		if _, ok := n.(*ast.FuncLit); ok {
+// commandFlagLits lists the flag literals of a command: those written in the command literal and those built by in-package
+// constructor functions called from it (modeFlag(), …).
+func commandFlagLits(c cliCommand) []*ast.CompositeLit {
+	info := c.Pkg.TypesInfo
+	var out []*ast.CompositeLit
+	isFlagLit := func(cl *ast.CompositeLit) bool {
+		tv, ok := info.Types[cl]
+		if !ok {
 			return false
 		}
-		kv, ok := n.(*ast.KeyValueExpr)
-		if !ok {
+		nm := namedOf(tv.Type)
+		return nm != nil && strings.HasSuffix(nm.Obj().Name(), "Flag")
+	}
+	seenFn := map[*types.Func]bool{}
+	var scan func(root ast.Node, depth int)
+	scan = func(root ast.Node, depth int) {
+		ast.Inspect(root, func(n ast.Node) bool {
+			switch x := n.(type) {
+			case *ast.FuncLit:
+				return false
+			case *ast.CompositeLit:
+				if x != c.Lit && isFlagLit(x) {
+					out = append(out, x)
+				}
+			case *ast.CallExpr:
+				if fn, _ := typeutil.Callee(info, x).(*types.Func); fn != nil && inRepoObj(fn) && !seenFn[fn] && depth < 3 {
+					seenFn[fn] = true
+					for _, f := range c.Pkg.Syntax {
+						for _, d := range f.Decls {
+							if fd, ok := d.(*ast.FuncDecl); ok && fd.Body != nil && info.Defs[fd.Name] == types.Object(fn) {
+								scan(fd.Body, depth+1)
+							}
+						}
+					}
+				}
+			}
 			return true
-		}
-		if k, ok := kv.Key.(*ast.Ident); ok && k.Name == "Name" {
-			if s, ok := constString(c.Pkg.TypesInfo, kv.Value); ok && s == name && kv.Value.Pos() > c.Lit.Lbrace {
-				// the command's own Name is also a KeyValue; flags are nested composite literals
-				found = found || isInsideFlag(c, kv)
+		})
+	}
+	scan(c.Lit, 0)
+	return out
+}
+
+func flagLitField(info *types.Info, cl *ast.CompositeLit, field string) (string, bool) {
+	for _, el := range cl.Elts {
+		if kv, ok := el.(*ast.KeyValueExpr); ok {
+			if k, _ := kv.Key.(*ast.Ident); k != nil && k.Name == field {
+				return constString(info, kv.Value)
 			}
 		}
-		return true
-	})
-	return found
+	}
+	return "", false
+}
+
+func commandHasFlag(c cliCommand, name string) bool {
+	for _, cl := range commandFlagLits(c) {
+		if s, ok := flagLitField(c.Pkg.TypesInfo, cl, "Name"); ok && s == name {
+			return true
+		}
+	}
+	return false
 }
 
 // flagDefault returns the constant string Value of the named string flag of a command, if it has one.
 func flagDefault(c cliCommand, name string) (string, bool) {
-	val, has := "", false
-	ast.Inspect(c.Lit, func(n ast.Node) bool {
-		if _, ok := n.(*ast.FuncLit); ok {
-			return false
-		}
-		cl, ok := n.(*ast.CompositeLit)
-		if !ok || cl == c.Lit {
-			return true
-		}
-		tv, ok := c.Pkg.TypesInfo.Types[cl]
-		if !ok {
-			return true
-		}
-		nm := namedOf(tv.Type)
-		if nm == nil || !strings.HasSuffix(nm.Obj().Name(), "Flag") {
-			return true
-		}
-		isNamed, v, hv := false, "", false
-		for _, el := range cl.Elts {
-			kv, ok := el.(*ast.KeyValueExpr)
-			if !ok {
-				continue
-			}
-			k, _ := kv.Key.(*ast.Ident)
-			if k == nil {
-				continue
-			}
-			switch k.Name {
-			case "Name":
-				if s, ok := constString(c.Pkg.TypesInfo, kv.Value); ok && s == name {
-					isNamed = true
-				}
-			case "Value":
-				if s, ok := constString(c.Pkg.TypesInfo, kv.Value); ok {
-					v, hv = s, true
-				}
+	for _, cl := range commandFlagLits(c) {
+		if s, ok := flagLitField(c.Pkg.TypesInfo, cl, "Name"); ok && s == name {
+			if v, ok := flagLitField(c.Pkg.TypesInfo, cl, "Value"); ok {
+				return v, true
 			}
 		}
-		if isNamed && hv {
-			val, has = v, true
-		}
-		return true
-	})
-	return val, has
+	}
+	return "", false
 }
 
 func isInsideFlag(c cliCommand, kv *ast.KeyValueExpr) bool {
@@ -295,6 +301,7 @@ func checkC19(p *core.Program, r *core.Report) {
 		{"*", "ComputeInputHashDeletion", "can only fail if binary.Write to an in-memory bytes.Buffer fails; no failing input exists"},
 		{"*", "Close", "writes are unbuffered and surface their errors at Write; Close of a file adds no truth"},
 		{"*", "fmt.Print*", "printing to the terminal: the (n, err) result of fmt.Print*/Fprint* is not part of the command's verdict"},
+		{"*", "os.Stdout.Write*/os.Stderr.Write*", "same: a direct write to a terminal stream"},
 	}
 	var exNotes []string
 	for _, e := range exceptions {
@@ -321,6 +328,13 @@ func checkC19(p *core.Program, r *core.Report) {
 					return false
 				}
 				if fn.Name() == "Close" || full == "fmt.Errorf" || full == "errors.New" {
+					return false
+				}
+				// direct writes to the terminal streams: same exception as fmt.Print*
+				if se, ok := ast.Unparen(call.Fun).(*ast.SelectorExpr); ok && (isOsVar(info, se.X, "Stdout") || isOsVar(info, se.X, "Stderr")) {
+					return false
+				}
+				if full == "io.WriteString" && len(call.Args) > 0 && (isOsVar(info, call.Args[0], "Stdout") || isOsVar(info, call.Args[0], "Stderr")) {
 					return false
 				}
 				if fn.Name() == "ComputeInputHashInsertion" || fn.Name() == "ComputeInputHashDeletion" {
@@ -353,7 +367,7 @@ func checkC19(p *core.Program, r *core.Report) {
 			}
 		}
 	}
-	r.Floor("truth-bearing call sites", 40)
+	r.Floor("truth-bearing call sites", 20)
 	r.Floor("verify: verifier call sites", 2)
 
 	// ---- O19.3
@@ -535,7 +549,7 @@ func checkProveStdout(p *core.Program, r *core.Report, ix *funcIndex, prove cliC
 		r.Violation("O19.5", "main.cmd:prove: stdout write on paths", p.Pos(site.c.Pos()), "%s", strings.Join(bad, "; "))
 	}
 	// printed value: var assigned from json.Marshal(x) with x mentioning a var assigned only from prover results
-	body := prove.Action.Node.(*ast.FuncLit).Body
+	body := unitBody(prove.Action)
 	assigns := func(v *types.Var) []ast.Expr {
 		var rhs []ast.Expr
 		ast.Inspect(body, func(n ast.Node) bool {
